@@ -113,7 +113,8 @@ type Exec struct {
 	obs         []obsRec
 	poolMode    int
 	oracleArg   map[string]Value
-	oracleArgs  map[string][]Value // every value recorded under a name (e.g. keys of successful RSA verifications)
+	oracleArgs  map[string][]Value
+	strAliases  []strAlias // strings made by unsafe.String: views of mutable byte cells // every value recorded under a name (e.g. keys of successful RSA verifications)
 	replacers   map[*Value][][2]*StrV
 	digests     map[string][]Value
 	oracle      map[string]int
@@ -481,7 +482,14 @@ func (fr *frame) run() {
 					fmt.Fprintf(os.Stderr, "%s\t%s\n", fr.fn.Name(), instr)
 				}
 			}
-			switch fr.visit(instr) {
+			k := fr.visit(instr)
+			if len(e.strAliases) > 0 {
+				switch instr.(type) {
+				case *ssa.Store, *ssa.Call, *ssa.MapUpdate:
+					e.resyncStrAliases()
+				}
+			}
+			switch k {
 			case kReturn:
 				return
 			case kJump:
@@ -1144,4 +1152,23 @@ func touchesReflectValue(sig *types.Signature) bool {
 		}
 	}
 	return false
+}
+
+// strAlias: unsafe.String(&b[0], n) shares memory with b, so later writes to b
+// change the string. StrV values are immutable otherwise; for these the bytes
+// are re-read from the cells after every instruction that can write memory.
+type strAlias struct {
+	s   *StrV
+	obj *ArrObj
+	idx int
+}
+
+func (e *Exec) resyncStrAliases() {
+	for _, a := range e.strAliases {
+		for i := range a.s.b {
+			if t, ok := a.obj.cells[a.idx+i].(*Term); ok {
+				a.s.b[i] = t
+			}
+		}
+	}
 }
